@@ -166,7 +166,7 @@ theorem finish_wf (ext : Ext) : ∀ (b : B) (dt : DataType) (nl : Bool) (a : Arr
   | .dictionary p idx vals index, dt, nl, a, hb, hw, hs, hx, h => by
     have hsl := finish_slots ext _ a hw hs h
     simp only [BuiltFor] at hb
-    obtain ⟨k, vdt, rfl, hbi, hbv⟩ := hb
+    obtain ⟨k, vdt, rfl, _, hbi, hbv⟩ := hb
     obtain ⟨hwi, hwv, _⟩ := WFB_dictionary hw
     obtain ⟨hsi, hsv, _⟩ := Sound_dictionary hs
     obtain ⟨hxi, hxv⟩ := WFX_dictionary hx
